@@ -88,6 +88,11 @@ CHECKS["C16"] = ("fault_enumeration",
  "Every JSON document of a shape grammar (depth <= 2, width <= 2, 4 scalar kinds, duplicate-free objects over 3 keys in both key orders, empty containers at every position; thorough adds depth 3 over a representative subset) in 4 white-space styles is streamed: the --stream events must equal the reference tostream of the document in document order, fromstream must rebuild the document, tostream must equal the events of the key-sorted document, --stream -s must collect the same events. EVERY truncation byte of every document <= 60 bytes is enumerated under --stream (the events emitted must be a prefix of the full event list, contain every event whose completing token lies before the cut, and be followed by exactly one error), default and -s modes. Streams of 1..3 documents x 4 separators x 8 read-chunk patterns (1, 7, 512, 4096, 16383, 16384, 16385, all at once): -s . = -n [inputs], in-order exactly-once consumption by input/inputs, input past the end, every split over files and stdin, a malformed document after the valid ones (six kinds). -R/-Rs/-Rn/-Rsn over texts incl. CRLF, NUL, invalid UTF-8 and lines of 4095/4096/5000/70000 bytes x the chunk patterns. --arg/--argjson/--slurpfile/--rawfile/--args/--jsonargs bindings incl. the same name bound twice within and across flag kinds; -f file.",
  "The in-process driver with a chunked non-seekable reader stands for a pipe; a number cut short is itself a number, so the last event before a cut may carry a prefix of the literal.",
  "DESIGN.md §4 C16")
+CHECKS["C17"] = ("fault_enumeration",
+ "exhaustive enumeration of single-byte corruptions and truncations of multi-line documents over every transport and read-chunk pattern, and of offending tokens x contexts for queries, against a position oracle",
+ "Well-formed multi-line JSON documents of 3 kinds x 7 sizes around the 16 KiB window x {LF, CRLF, CR} x 0..3 preceding valid documents are corrupted by ONE byte at every byte (small documents) or at every byte around each buffer boundary; each corrupted stream goes through 8 transports (regular file; pipe whole and in chunks of 1, 7, 512, 4096, 16384, 16385). The true offending byte comes from encoding/json run by the harness on the same bytes; the reported line must be its 1-based line, the excerpt a piece of that line covering it, the caret under it in terminal columns. Truncations under default/--stream/-s/--slurpfile. Query errors: 22 offending token kinds x 15 contexts x 4 continuations as argument and -f file, checked for ParseError Offset/Token, line and caret.",
+ "encoding/json's SyntaxError.Offset is the position oracle for JSON; go-runewidth is the column oracle. YAML positions come from the YAML library and are only checked for presence.",
+ "DESIGN.md §4 C17")
 NOT_YET = "check not built yet (work in progress in this session); see DESIGN.md for the planned exploration"
 
 def commits():
